@@ -256,6 +256,8 @@ def live_handler_step(c, kind, n=1, allow_meanwhile=True, allow_errors=True, all
         elif kind == OrderPackageType.REPLACE:
             oc["place_status"] = c.choose("o%d_place_status" % i, ["SUCCESS", "FAILURE", "TIMEOUT"]) if st == "SUCCESS" else c.choose("o%d_place_status" % i, ["FAILURE", "TIMEOUT"])
         outcomes.append(oc)
+    no_reports = c.choose("place_request_rejected_without_reports", [False, True]) if (kind == OrderPackageType.PLACE and allow_errors) else False
+    c.tag("no_reports", no_reports)
     misorder = c.choose("cancel_reports", ["in-order", "reversed", "last-missing"]) if (kind == OrderPackageType.CANCEL and n > 1 and allow_misorder) else "in-order"
     c.tag("kind", kind.name)
     c.tag("meanwhile", "/".join(str(m) for m in meanwhile))
@@ -318,6 +320,8 @@ def live_handler_step(c, kind, n=1, allow_meanwhile=True, allow_errors=True, all
                                                                        str(800 + i) if oc["place_status"] == "SUCCESS" else None,
                                                                        None if oc["place_status"] == "SUCCESS" else "ERROR_IN_ORDER",
                                                                        instruction=Rep(limit_order=Rep(price=3.0, size=sizes[i])))))
+        if no_reports:
+            reps = []  # the whole request is rejected (e.g. INSUFFICIENT_FUNDS): status FAILURE and no instruction reports
         if kind == OrderPackageType.CANCEL:
             if misorder == "reversed":
                 reps = list(reversed(reps))
@@ -344,7 +348,7 @@ def live_handler_step(c, kind, n=1, allow_meanwhile=True, allow_errors=True, all
                 for i, o in enumerate(orders):
                     if meanwhile[i] == "before-send":
                         stream_complete(fl, client, o)
-    return dict(fl=fl, client=client, strategy=strategy, market=market, orders=orders, rec=rec, ex=ex, kind=kind, name=name,
+    return dict(fl=fl, client=client, strategy=strategy, market=market, orders=orders, rec=rec, ex=ex, kind=kind, name=name, no_reports=no_reports,
                 outcomes=outcomes, meanwhile=meanwhile, fail_until=fail_until, err_kind=err_kind, state=state, misorder=misorder, sizes=sizes)
 
 
@@ -355,6 +359,10 @@ def c12_obligations(c, w):
     n = len(orders)
     for i, o in enumerate(orders):
         oc = outcomes[i]
+        if w.get("no_reports"):
+            # a request rejected as a whole carries no per-instruction information: what becomes of the orders is outside the
+            # claim (flumine leaves them PENDING); only the transaction count is checked for this outcome
+            continue
         may_pending = kind == OrderPackageType.PLACE and answered and (oc["status"] == "TIMEOUT" or (oc["status"] == "SUCCESS" and oc.get("order_status") == "PENDING"))
         # an unknown exception (not a BetfairError) aborts the call without any information about the bets: PENDING may remain
         may_pending = may_pending or (kind == OrderPackageType.PLACE and not answered and w["err_kind"] == "Exception")
@@ -379,7 +387,7 @@ def c12_obligations(c, w):
     c.ob("txn-count.failed", ctl.failed_transaction_count == exp_failed, counted=ctl.failed_transaction_count, expected=exp_failed)
     c.ob("txn-count.hourly=total", w["client"].current_transaction_count_total == w["client"].transaction_count_total)
     # alignment: each report is applied to the order it belongs to
-    if answered:
+    if answered and not w.get("no_reports"):
         for i, o in enumerate(orders):
             oc = outcomes[i]
             if kind == OrderPackageType.PLACE and oc["status"] == "SUCCESS":
